@@ -89,14 +89,25 @@ Definition ub_frac (Fs : Q) (ub : option Q) : Q :=
   match ub with Some u => u / (Fs / 2) | None => 1 end.
 Definition lb_frac (Fs lb : Q) : Q := lb / (Fs / 2).
 
-(* fir: which library calls are made, in which order, with which cut-off *)
-Definition fir_plan (Fs lb : Q) (ub : option Q) (order n : nat) : plan :=
-  let ubf := ub_frac Fs ub in
-  let lbf := lb_frac Fs lb in
+(* fir: which library calls are made, in which order, with which cut-off; from the two fractions *)
+Definition fir_plan_fr (lbf ubf : Q) (order n : nat) : plan :=
   if Qltb lbf 0 || Qltb 1 ubf then PlanErr
   else if (3 * n <? order + 1)%nat then PlanErr
   else Plan (order + 1)
             ((if Qltb ubf 1 then [LP ubf] else []) ++ (if Qltb 0 lbf then [HP lbf] else [])).
+Definition fir_plan (Fs lb : Q) (ub : option Q) (order n : nat) : plan :=
+  fir_plan_fr (lb_frac Fs lb) (ub_frac Fs ub) order n.
+
+(* the fractions exactly as the code computes them in binary64 (lines 355-360 / 410-415):
+   ub_frac = self.ub / (self.sampling_rate / 2.)  (1.0 when ub is None), lb_frac = self.lb / (Fs / 2.).
+   The branches that follow test ub_frac < 1, ub_frac == 1, ub_frac > 1, lb_frac > 0, lb_frac == 0 on these
+   float64 values; their exact dyadic values (f2q) are handed to the plan / specification. *)
+Definition half_f (Fs : float) : float := PrimFloat.div Fs 2.
+Definition ub_frac_f (Fs : float) (ub : option float) : float :=
+  match ub with Some u => PrimFloat.div u (half_f Fs) | None => 1%float end.
+Definition lb_frac_f (Fs lb : float) : float := PrimFloat.div lb (half_f Fs).
+Definition fir_plan_fl (Fs lb : float) (ub : option float) (order n : nat) : plan :=
+  fir_plan_fr (f2q (lb_frac_f Fs lb)) (f2q (ub_frac_f Fs ub)) order n.
 
 (* the taps handed to filtfilt in a stage, given what firwin returned *)
 Definition stage_taps (ntaps : nat) (s : stage) (fw : nat -> Q) : nat -> Q :=
@@ -127,6 +138,8 @@ Definition iir_of_fracs (lbf ubf : Q) : iirspec :=
   else IirUnbound.
 Definition iir_spec (Fs lb : Q) (ub : option Q) : iirspec :=
   iir_of_fracs (lb_frac Fs lb) (ub_frac Fs ub).
+Definition iir_spec_fl (Fs lb : float) (ub : option float) : iirspec :=
+  iir_of_fracs (f2q (lb_frac_f Fs lb)) (f2q (ub_frac_f Fs ub)).
 
 (* ------------------------------------------------------------------ C. the axis of the output *)
 Record axis := mk_axis { ashape : list Z; adelta : Z; at0 : Z; aunit : unit }.
